@@ -318,18 +318,26 @@ PPL::Polyhedron::relation_with(const Congruence& cg) const {
       && Poly_Con_Relation::is_included()
       && Poly_Con_Relation::is_disjoint();
   }
-  // Build the equality corresponding to the congruence (ignoring the modulus).
+  // Build the expression corresponding to the congruence
+  // (ignoring the modulus).
   Linear_Expression expr(cg.expression());
-  const Constraint c(expr == 0);
 
   // The polyhedron is non-empty so that there exists a point.
   // For an arbitrary generator point, compute the scalar product with
-  // the equality.
+  // the expression: both the expression and the modulus are scaled
+  // by the divisor of the point, so that the computation stays integral.
   PPL_DIRTY_TEMP_COEFFICIENT(sp_point);
+  PPL_DIRTY_TEMP_COEFFICIENT(modulus);
+  modulus = cg.modulus();
   for (Generator_System::const_iterator gs_i = gen_sys.begin(),
          gs_end = gen_sys.end(); gs_i != gs_end; ++gs_i) {
     if (gs_i->is_point()) {
-      Scalar_Products::assign(sp_point, c, *gs_i);
+      const Coefficient& point_divisor = gs_i->divisor();
+      const Linear_Expression point_expr(gs_i->expression());
+      Scalar_Products::assign(sp_point, expr, point_expr);
+      add_mul_assign(sp_point, expr.inhomogeneous_term(), point_divisor);
+      expr *= point_divisor;
+      modulus *= point_divisor;
       expr -= sp_point;
       break;
     }
@@ -342,7 +350,6 @@ PPL::Polyhedron::relation_with(const Congruence& cg) const {
   // corresponding to the hyperplanes to determine the result.
 
   // Compute the distance from the point to an hyperplane.
-  const Coefficient& modulus = cg.modulus();
   PPL_DIRTY_TEMP_COEFFICIENT(signed_distance);
   signed_distance = sp_point % modulus;
   if (signed_distance == 0) {
